@@ -145,6 +145,18 @@ func (c *Case) orders(r *mon.Rand) []order {
 	return out
 }
 
+// plainOrder: the declarations in the order in which they were generated.
+func (c *Case) plainOrder() order {
+	o := order{Within: map[int][]int{}}
+	for i := range c.Preds {
+		o.Groups = append(o.Groups, i)
+	}
+	for i, m := range c.Maps {
+		o.Within[m.Pred] = append(o.Within[m.Pred], i)
+	}
+	return o
+}
+
 // ---- construction --------------------------------------------------------------------------
 
 func (m mapping) build() *compose.FieldMapping {
@@ -250,7 +262,17 @@ func (c *Case) build(ctx context.Context, o order) *built {
 			}
 			noDirect(rk)
 		case mIndirectBranch:
-			b.h.addBranch(key, brOf[p.Type](succKey))
+			// the branch below the predecessor selects the successor, never the other end node
+			ak := fmt.Sprintf("alt%d", g)
+			b.h.addLambda(ak, mkRelay[string]())
+			b.h.end().AddDependency(ak)
+			b.h.addBranch(key, brOf[p.Type](succKey, ak))
+			if p.Start {
+				// a workflow whose START is followed by a branch only is refused ("start node not set"): one more node below START
+				kk := fmt.Sprintf("keep%d", g)
+				b.h.addLambda(kk, mkRelay[any]()).AddInput(key)
+				b.h.end().AddDependency(kk)
+			}
 			noDirect("")
 		case mAddEnd:
 			b.h.addEnd(key, fms...)
